@@ -33,7 +33,22 @@ type CaseB struct {
 	Keep2  int    `json:"keep2"`
 	// session-level messages of the bursting agent at drain levels (0 none, 1.. = sessionMsgs, 4 = COMMAND_CHECKIN callback), one per level, cyclic
 	Session []int `json:"session,omitempty"`
+	// how the burst tasks are issued (absent = bare queued sleep jobs, as before): viaB
+	Via string `json:"via,omitempty"`
 }
+
+// viaB: the ways the tasks of a burst are issued and ended.
+//
+//	queue            AddJobToQueue of a bare sleep job, ended by the sleep callback
+//	op-sleep         the operator path (TaskPrepare) for the same command
+//	op-bof           operator path, inline execute without HasCallback: two mem-file chunk tasks per
+//	                 task are queued along (they stay outstanding), ended by one of the four
+//	                 inline-execute endings (ran ok / could not run / exception / symbol not found)
+//	op-bof-callback  the same with HasCallback == "true": the teamserver keeps one BofCallbacks entry
+//	                 per outstanding task, so the drain also grows and shrinks that list
+var viaB = []string{"queue", "op-sleep", "op-bof", "op-bof-callback"}
+
+var bofEndings = []string{"bof-ran-ok", "bof-could-not-run", "bof-exception", "bof-symbol-not-found"}
 
 var burstRanges = [][2]int{{1, 4}, {7, 9}, {15, 20}, {30, 40}, {60, 70}, {120, 140}}
 
@@ -65,6 +80,7 @@ func genB(t *rapid.T) CaseB {
 	for i := 0; i < 4; i++ {
 		c.Session = append(c.Session, agentfx.Weighted(t, "session", 3, 2, 2, 1, 1))
 	}
+	c.Via = viaB[agentfx.Weighted(t, "via", 4, 1, 1, 2)]
 	return c
 }
 
@@ -123,6 +139,25 @@ func expandB(c CaseB) CaseE {
 		return p
 	}
 	add := func(op OpE) { e.Ops = append(e.Ops, op) }
+	// how one task of a burst is issued, and the kind that ends it
+	issue := OpE{Kind: "issue", Agent: target, Cmd: idxSleep}
+	bof := false
+	switch c.Via {
+	case "op-sleep":
+		issue = OpE{Kind: "optask", Agent: target, Cmd: opCmdIndex("sleep"), N: 5}
+	case "op-bof":
+		issue = OpE{Kind: "optask", Agent: target, Cmd: opCmdIndex("inline-execute"), Variant: 2, N: 64} // HasCallback "false"
+		bof = true
+	case "op-bof-callback":
+		issue = OpE{Kind: "optask", Agent: target, Cmd: opCmdIndex("inline-execute"), Variant: 0, N: 64} // HasCallback "true"
+		bof = true
+	}
+	ending := func() string {
+		if bof {
+			return bofEndings[pick()%len(bofEndings)]
+		}
+		return "sleep"
+	}
 	// somebody else's outstanding task, for the foreign-id probes
 	add(OpE{Kind: "issue", Agent: other, Cmd: idxSleep})
 	add(OpE{Kind: "handout", Agent: other})
@@ -137,7 +172,7 @@ func expandB(c CaseB) CaseE {
 				add(OpE{Kind: "session", Agent: target, Variant: sm - 1})
 			case sm == len(sessionMsgs)+1 && out > 0:
 				// metadata refresh: the final callback of one of the outstanding tasks
-				add(OpE{Kind: "callback", Agent: target, Src: "outstanding", Pick: pick() % out, Force: "checkin", Text: "c", N: n})
+				add(OpE{Kind: "callback", Agent: target, Src: "outstanding", Main: true, Pick: pick() % out, Force: "checkin", Text: "c", N: n})
 				out--
 			}
 		}
@@ -149,14 +184,14 @@ func expandB(c CaseB) CaseE {
 		}
 		if out > 0 {
 			// a still outstanding id with a non-final kind: stays outstanding
-			add(OpE{Kind: "callback", Agent: target, Src: "outstanding", Pick: pick() % out, Force: "output", Text: "o", N: n})
+			add(OpE{Kind: "callback", Agent: target, Src: "outstanding", Main: true, Pick: pick() % out, Force: "output", Text: "o", N: n})
 		}
 	}
 	burst := func(n, groups, keep int) {
 		base := out
 		per := (n + groups - 1) / groups
 		for i := 0; i < n; i++ {
-			add(OpE{Kind: "issue", Agent: target, Cmd: idxSleep})
+			add(issue)
 			out++
 			if (i+1)%per == 0 || i == n-1 {
 				add(OpE{Kind: "handout", Agent: target})
@@ -177,7 +212,7 @@ func expandB(c CaseB) CaseE {
 			if c.Order == "fifo" && base > 0 {
 				p = base // the survivors of the first burst stay
 			}
-			add(OpE{Kind: "callback", Agent: target, Src: "outstanding", Pick: p, Force: "sleep", Text: "d", N: uint32(done)})
+			add(OpE{Kind: "callback", Agent: target, Src: "outstanding", Main: true, Pick: p, Force: ending(), Text: "d", N: uint32(done)})
 			out--
 			if _, ok := lv[out-base]; ok {
 				probes()
@@ -209,16 +244,23 @@ func classifyB(c CaseB) core.Class {
 	if c.Child {
 		via = "pivot-child"
 	}
-	cl.Labels = append(cl.Labels, "burst:"+burstBucket(c.N), "second-burst:"+burstBucket(c.M), "order:"+c.Order, "target:"+via, fmt.Sprintf("kept:%d", c.Keep))
+	issued := c.Via
+	if issued == "" {
+		issued = "queue"
+	}
+	cl.Labels = append(cl.Labels, "burst:"+burstBucket(c.N), "second-burst:"+burstBucket(c.M), "order:"+c.Order, "target:"+via, fmt.Sprintf("kept:%d", c.Keep), "burst-issued-via:"+issued)
 	cl.NonTrivial = true // every case probes completed / foreign ids with effectful kinds
 	cl.Fingerprint = fmt.Sprintf("n=%s|m=%s|%s|%s", burstBucket(c.N), burstBucket(c.M), c.Order, via)
+	if issued != "queue" {
+		cl.Fingerprint += "|" + issued
+	}
 	return cl
 }
 
 func TestC05b(t *testing.T) {
 	core.Run(t, core.Spec[CaseB]{
 		Property: "C05", Sub: "b",
-		Rule: "burst and drain on one agent (directly connected, or an SMB child reached through its parent; another agent holds one outstanding task): N tasks with N from {1-4, 7-9, 15-20, 30-40, 60-70, 120-140} are issued in 1-3 groups, each handed out; they are completed by their final callback in fifo / lifo / random order down to 0, 1 or 3 survivors; after every completion (N <= 9) or at about 3/4, 1/2, 1/4, 1/8 of the burst and at 2, 1, 0 outstanding, first (per level, generated) a session-level message of the bursting agent - DEMON_INIT again with the same / another key, SMB re-connect for a child, plain check-in, COMMAND_CHECKIN callback - then nine probes run: request id 0, a completed id, a never-issued id, the other agent's outstanding id - each with a final (sleep) and a non-final (output) kind - and a still outstanding id with the non-final kind; then a second burst of 1-40 tasks on the same agent, drained and probed the same way. Expanded into a history of sub-check (a) and judged by the same oracle. Every case is non-trivial; distinct = (burst bucket, second-burst bucket, order, direct/child)",
+		Rule: "burst and drain on one agent (directly connected, or an SMB child reached through its parent; another agent holds one outstanding task): N tasks with N from {1-4, 7-9, 15-20, 30-40, 60-70, 120-140} are issued in 1-3 groups, each handed out; they are completed by their final callback in fifo / lifo / random order down to 0, 1 or 3 survivors; after every completion (N <= 9) or at about 3/4, 1/2, 1/4, 1/8 of the burst and at 2, 1, 0 outstanding, first (per level, generated) a session-level message of the bursting agent - DEMON_INIT again with the same / another key, SMB re-connect for a child, plain check-in, COMMAND_CHECKIN callback - then nine probes run: request id 0, a completed id, a never-issued id, the other agent's outstanding id - each with a final (sleep) and a non-final (output) kind - and a still outstanding id with the non-final kind; then a second burst of 1-40 tasks on the same agent, drained and probed the same way. The tasks of both bursts are issued in one of four generated ways (label burst-issued-via): bare queued sleep jobs ended by the sleep callback (4/8); the operator path (TaskPrepare) for sleep (1/8); operator-path inline execute without (1/8) or with (2/8) HasCallback - two mem-file chunk tasks per task stay outstanding alongside, with HasCallback the teamserver's BofCallbacks list grows to N entries and shrinks with the drain - each task ended by one of ran-ok / could-not-run / exception / symbol-not-found (generated per task). Expanded into a history of sub-check (a) and judged by the same oracle. Every case is non-trivial; distinct = (burst bucket, second-burst bucket, order, direct/child)",
 		Gen:  genB, Check: checkB, Classify: classifyB,
 		Assumptions: []string{"same model and oracle as (a); whether a still outstanding id is accepted is counted (labels accepted-with-effect / accepted-without-effect), not asserted: the statement is an only-if"},
 	})
